@@ -54,6 +54,9 @@ type SeqName struct {
 	// OddSvc: one more ServiceMode record, with no-default-alpn and without alpn
 	// (RFC 9460 7.1.1 calls that malformed; a zone may hold it all the same)
 	OddSvc bool `json:"odd_svc,omitempty"`
+	// Hinted ("target" shape, concurrent plans): the records name a target that
+	// owns no address and carry address hints.
+	Hinted bool `json:"hinted,omitempty"`
 	// Port (shape "https", sequential histories): the name is resolved as
 	// host:port, so its HTTPS records live at _port._https.host - a name that
 	// vanishes altogether (NXDOMAIN) when the records are withdrawn.
@@ -127,6 +130,11 @@ func buildZone(names []SeqName, st []nameState, fault string) *simdoh.Zone {
 			if st[i].withdrawn {
 				break
 			}
+			var h4, h6 []string
+			if n.Hinted && n.Shape == "target" {
+				tgt = "void." + names[n.Other].Host
+				h4, h6 = []string{valA(i, ver, 7)}, []string{valAAAA(i, ver, 7)}
+			}
 			if n.Shape != "nodata" {
 				for x := n.NSvc; x >= 1; x-- {
 					z.RRs = append(z.RRs, simdoh.RR{Name: n.httpsOwner(), Type: simdoh.TypeHTTPS, TTL: ttl(), Target: tgt,
@@ -134,7 +142,7 @@ func buildZone(names []SeqName, st []nameState, fault string) *simdoh.Zone {
 				}
 			}
 			z.RRs = append(z.RRs, simdoh.RR{Name: n.httpsOwner(), Type: simdoh.TypeHTTPS, TTL: ttl(), Target: tgt,
-				Svc: &simdoh.Svc{Priority: 1, ALPN: []string{"h3", "h2", "v" + fmt.Sprint(ver)}, ECH: []byte{0xEC, byte(ver >> 8), byte(ver), byte(i)}}})
+				Svc: &simdoh.Svc{Priority: 1, ALPN: []string{"h3", "h2", "v" + fmt.Sprint(ver)}, ECH: []byte{0xEC, byte(ver >> 8), byte(ver), byte(i)}, V4Hint: h4, V6Hint: h6}})
 			if n.OddSvc && n.Shape != "nodata" {
 				z.RRs = append(z.RRs, simdoh.RR{Name: n.httpsOwner(), Type: simdoh.TypeHTTPS, TTL: ttl(), Target: tgt,
 					Svc: &simdoh.Svc{Priority: 9, NoDefaultALPN: true, Port: uint16(9000 + ver%100)}})
@@ -972,6 +980,9 @@ func genConc(seed uint64, r *rand.Rand) *Plan {
 			p.Names[i].TTLs = []uint32{uint32(core.Pick(r, []int{0, 1, 2, 60}))}
 		}
 	}
+	for i := range p.Names {
+		p.Names[i].Hinted = p.Names[i].Shape == "target" && core.Chance(r, 1, 2)
+	}
 	p.Goroutines = core.Pick(r, []int{2, 2, 3, 4, 8, 16})
 	p.Iter = core.Between(r, 3, 24)
 	p.Changes = r.IntN(4)
@@ -1114,6 +1125,20 @@ func executeConc(t *testing.T, prop string, pl *Plan) *core.Result {
 						c.obs = observe(p.Names, ni, rr)
 						// use the result the way a dialer does
 						pk, pm, ps := core.Guard(func() {
+							// the result itself is a value that may be handed to another
+							// goroutine before anybody has looked at its targets: whoever
+							// made the previous result and this goroutine may walk it at
+							// the same time
+							prevRes, _ := sharedRes.Swap(resBox{rr, true}).(resBox)
+							defer func() {
+								if prevRes.ok {
+									for _, nw := range p.Networks {
+										for tg := range targetsOf(prevRes.r, nw) {
+											_ = tg.Address
+										}
+									}
+								}
+							}()
 							for _, nw := range p.Networks {
 								// one sequence, walked twice here and once more by
 								// whichever goroutine picks it up next: a sequence
@@ -1154,6 +1179,7 @@ func executeConc(t *testing.T, prop string, pl *Plan) *core.Result {
 		stopTicker.Store(true)
 		<-tickerDone
 		sharedSeq.Store(seqBox{})
+		sharedRes.Store(resBox{})
 		if m, ok := seqMismatch.Swap("").(string); ok && m != "" {
 			res.Fail(prop, "result-changes", "a target sequence handed out by a result yields different targets when it is walked again", "%s", m)
 		}
@@ -1220,9 +1246,14 @@ func executeConc(t *testing.T, prop string, pl *Plan) *core.Result {
 
 // seqBox lets sequences of one concrete type travel through an atomic.Value.
 type seqBox struct{ s iter.Seq[ech.Target] }
+type resBox struct {
+	r  ech.ResolveResult
+	ok bool
+}
 
 var (
 	sharedSeq   atomic.Value // the sequence most recently obtained by any goroutine
+	sharedRes   atomic.Value // the result most recently obtained by any goroutine
 	seqMismatch atomic.Value // string: a sequence that changed between two passes
 )
 
